@@ -202,7 +202,7 @@ func runC16(p *engine.Prog, r *engine.Report) {
 	r.Min("R16.2-whole-config", 1)
 	r.Min("R16.3-external-labels-only", 1)
 	r.Min("R16.4-one-implementation", 2)
-	r.Min("R16.5-reported-hash", 2)
+	r.Min("R16.5-reported-hash", 3)
 	checkReportedHash(p, r)
 
 	// ---- R16.1
@@ -547,6 +547,52 @@ func checkReportedHash(p *engine.Prog, r *engine.Report) {
 	}
 	if n == 0 {
 		r.Add("R16.5-reported-hash", "reported hash", pkgSide, "a store to RuntimeInfo.ConfigHash in the sidecar", "none found", engine.Undecided)
+	}
+	// every ConfigInfo installed as the current one carries the hash of its configuration: the object built by the
+	// hashing function, the empty default of the constructor, or nothing else (a copy made elsewhere would have to
+	// carry the hash over, which no rule here could confirm)
+	{
+		var probs []string
+		nInst := 0
+		for _, fn := range p.Funcs {
+			if !engine.InPkg(fn, pkgProm) {
+				continue
+			}
+			fi := p.Info(fn)
+			for _, in := range allInstrs(fn) {
+				st, ok := in.(*ssa.Store)
+				if !ok {
+					continue
+				}
+				fa, ok := st.Addr.(*ssa.FieldAddr)
+				if !ok || engine.FieldOf(fa) != fCur {
+					continue
+				}
+				nInst++
+				if _, fresh := fa.X.(*ssa.Alloc); fresh {
+					continue // constructor: the empty default
+				}
+				al, ok := st.Val.(*ssa.Alloc)
+				if !ok {
+					probs = append(probs, "currentConfig is set to "+short(fi.T(st.Val).S)+" in "+engine.FuncName(fn))
+					continue
+				}
+				hashed := false
+				for _, rr := range *al.Referrers() {
+					if fa2, ok := rr.(*ssa.FieldAddr); ok && engine.FieldOf(fa2) == fHash {
+						for _, r2 := range *fa2.Referrers() {
+							if s2, ok := r2.(*ssa.Store); ok && s2.Addr == ssa.Value(fa2) {
+								hashed = true
+							}
+						}
+					}
+				}
+				if !hashed {
+					probs = append(probs, "the ConfigInfo installed at "+p.Rel(st.Pos())+" ("+engine.FuncName(fn)+") never gets a ConfigHash: the process would report an empty hash while running a configuration")
+				}
+			}
+		}
+		r.Check(len(probs) == 0 && nInst > 0, "R16.5-reported-hash", "installed ConfigInfo carries its hash", "stores to ConfigManager.currentConfig", "every installed ConfigInfo (constructor default excepted) has its ConfigHash stored (R16.4: only from the structural hash)", strings.Join(probs, "; "))
 	}
 	// ConfigInfo() returns the manager's current configuration
 	if f := p.SSAFunc(mInfo); f != nil {
